@@ -30,6 +30,7 @@ const preludeSorts = `(set-logic ALL)
 (declare-sort Str 0)
 (declare-sort TimeT 0)
 (declare-sort Opq 0)
+(declare-fun ltype (Loc) Int)
 (declare-fun s_len (Str) (_ BitVec 64))
 (declare-fun s_at (Str (_ BitVec 64)) (_ BitVec 8))
 (declare-fun s_cat (Str Str) Str)
